@@ -498,3 +498,45 @@ var (
 	setType = types.NewNamed(types.NewTypeName(token.NoPos, nil, "set", nil), types.NewMap(types.Typ[types.Int], types.Typ[types.Bool]), nil)
 	seqType = types.NewNamed(types.NewTypeName(token.NoPos, nil, "seq", nil), types.NewSlice(types.Typ[types.Int]), nil)
 )
+
+var implPtrCache = map[string]bool{}
+
+// allImplementersArePointers: every named type of the program implementing the
+// interface does so through a pointer receiver type (so a non-nil interface
+// value of this type holds a pointer).
+func (e *Engine) allImplementersArePointers(t types.Type, it *types.Interface) bool {
+	if it.NumMethods() == 0 {
+		return false
+	}
+	k := types.TypeString(t, nil)
+	if v, ok := implPtrCache[k]; ok {
+		return v
+	}
+	res := true
+	n := 0
+	for _, p := range e.prog.AllPackages() {
+		for _, m := range p.Members {
+			tn, ok := m.(*ssa.Type)
+			if !ok {
+				continue
+			}
+			T := tn.Type()
+			if _, isI := T.Underlying().(*types.Interface); isI {
+				continue
+			}
+			if types.Implements(T, it) {
+				if _, isP := T.Underlying().(*types.Pointer); !isP {
+					res = false
+				}
+				n++
+			} else if types.Implements(types.NewPointer(T), it) {
+				n++
+			}
+		}
+	}
+	if n == 0 {
+		res = false
+	}
+	implPtrCache[k] = res
+	return res
+}
